@@ -1,12 +1,16 @@
 #!/bin/bash
-# seedtest.sh <seed-id> <property-id>...   apply /verif/seeded/<seed-id>/patch.diff to /repo, run the
-# quick checks of the given properties, restore /repo.  Prints one line per check.
+# seedtest.sh <seed-id> <property-id>...   apply /verif/seeded/<seed-id>/patch.diff to a scratch
+# worktree of /repo (so that /repo itself is never disturbed while other checks run), run the quick
+# checks of the given properties against it (VERIF_REPO), remove the worktree.  One line per check.
 SID="$1"; shift
-cd /verif
-git -C /repo diff --quiet || { echo "repo dirty, refusing"; exit 2; }
-git -C /repo apply /verif/seeded/$SID/patch.diff || { echo "patch does not apply"; exit 2; }
+V=$(cd "$(dirname "$0")/.." && pwd)
+WT=/tmp/seedrepo.$SID.$$
+git -C /repo worktree add -q --detach $WT HEAD || exit 2
+trap 'git -C /repo worktree remove --force '$WT' >/dev/null 2>&1' EXIT
+git -C $WT apply $V/seeded/$SID/patch.diff || { echo "SEEDTEST $SID patch does not apply"; exit 2; }
+mkdir -p /tmp/seed_evidence.$SID
 for P in "$@"; do
-  VERIF_EVIDENCE_DIR=/tmp/seed_evidence ./check $P quick > /tmp/seedtest_${SID}_$P.log 2>&1; RC=$?
-  echo "SEEDTEST $SID $P rc=$RC $(grep -c '^VIOLATION' /tmp/seedtest_${SID}_$P.log) violation-lines: $(grep '^FAILED-OBLIGATION' /tmp/seedtest_${SID}_$P.log | sed 's/.*key=//' | tr '\n' '|' | cut -c1-400)"
+  (cd $V && VERIF_REPO=$WT VERIF_EVIDENCE_DIR=/tmp/seed_evidence.$SID ${VERIF_CHECK:-./check} $P quick > /tmp/seedtest_${SID}_$P.log 2>&1); RC=$?
+  echo "SEEDTEST $SID $P rc=$RC $(grep -c '^VIOLATION' /tmp/seedtest_${SID}_$P.log) violation-lines: $(grep '^FAILED-OBLIGATION' /tmp/seedtest_${SID}_$P.log | sed 's/.*key=//' | tr '\n' '|' | cut -c1-600)"
 done
-git -C /repo checkout -- .
+rm -rf /tmp/seed_evidence.$SID
